@@ -4,8 +4,10 @@ package main
 // discharge by `decide` against hand-written expectation tables.
 
 import (
+	"bytes"
 	"fmt"
 	"go/ast"
+	"go/printer"
 	"go/token"
 	"go/types"
 	"sort"
@@ -445,6 +447,17 @@ func genFacts(repo string) (string, []string) {
 		}
 		sb.WriteString("]\n\n")
 		fmt.Fprintf(&sb, "/-- `componentID` unregisters and panics when a new type is registered in a locked world -/\ndef componentIDChecksLock : Bool := %v\n\n", funcMentions(ecs, "World.componentID", "IsLocked") && funcMentions(ecs, "World.componentID", "unregisterLastComponent"))
+		// the lock mask: bodies of the three small functions that tie the lock bits to the Mask operations
+		sb.WriteString("/-- statements of `lockMask.Lock / Unlock / IsLocked / Reset` and `World.lock / unlock / IsLocked / checkLocked` (gofmt-printed, one string per statement) -/\ndef lockMaskBodies : List (String × List String) := [\n")
+		lm := []string{"lockMask.Lock", "lockMask.Unlock", "lockMask.IsLocked", "lockMask.Reset", "World.lock", "World.unlock", "World.IsLocked", "World.checkLocked"}
+		for i, fn := range lm {
+			sep := ","
+			if i == len(lm)-1 {
+				sep = ""
+			}
+			fmt.Fprintf(&sb, "  (%s, %s)%s\n", leanStr(fn), strList(funcStmts(ecs, fn)), sep)
+		}
+		sb.WriteString("]\n\n")
 	}
 	// map ranges and package variables over all non-test packages
 	ranges := []string{}
@@ -479,6 +492,22 @@ func genFacts(repo string) (string, []string) {
 	sb.WriteString(gen)
 	sb.WriteString("end ArcheGen.Facts\n")
 	return sb.String(), errs
+}
+
+// funcStmts prints the top-level statements of a function body, one string each (whitespace
+// normalised); a missing function yields ["<missing>"]
+func funcStmts(p *pkgInfo, fn string) []string {
+	fd, ok := p.funcs[fn]
+	if !ok || fd.Body == nil {
+		return []string{"<missing>"}
+	}
+	res := []string{}
+	for _, st := range fd.Body.List {
+		var buf bytes.Buffer
+		printer.Fprint(&buf, token.NewFileSet(), st)
+		res = append(res, strings.Join(strings.Fields(buf.String()), " "))
+	}
+	return res
 }
 
 func funcMentions(p *pkgInfo, fn, ident string) bool {
